@@ -123,8 +123,8 @@ def r12_2(ctx, R):
 
 def r12_3(ctx, R):
     ctx.rule("R12.3", "coalesce: the flag is written false only in POP (C01 R1.3 instances re-evaluated)")
-    c01.r1_3(ctx, R)
-    ctx.rule("R1.3", "see C01 R1.3 (shared)")
+    c01.r1_3(ctx, R, parts=("who", "behind"))
+    ctx.rule("R1.3", "see C01 R1.3 (shared; parts: who-may-clear + child poll behind a dequeue): a flag is never cleared while its node is queued")
 
 
 def run(ctx):
